@@ -1,13 +1,181 @@
 /-
 C15 — URLs keep their meaning between IRI, URI, environ and request.
 Property theorems only (helper lemmas live in Lemmas/Url.lean).
+
+Opaque to the model (validated by the streams only): urlsplit / urlunsplit, the IDNA codec.
+Known findings (IDNA / urlsplit are outside the model, so they have no Lean counterpart):
+F15a `uri_to_iri` raises UnicodeError for a malformed `xn--` label, F15b `uri_to_iri` unquotes
+`%5B` / `%5D` inside the userinfo.
+
+-- OPEN (P1, checked by stream iri-uri on every run, not proved): for every component text `s` whose
+-- every '%' starts a two-hex-digit escape and every keep table `k` of `uri_to_iri`,
+--   unquotePartial k (unquotePartial k s) = unquotePartial k s                      (uriToIri_fixpoint)
+--   unquotePartial k (quote safe (unquotePartial k (quote safe s))) = unquotePartial k (quote safe s)
+--                                                                                   (iri_uri_iri)
+-- Missing: an inversion lemma for the UTF-8 decoder with error spans (`decodeQ`) stating that its
+-- output re-encodes to the input bytes and that re-quoted spans stay undecodable in context.
 -/
-import WzVerif.Model.Url
+import WzVerif.Lemmas.Url
 namespace Wz.Props.C15
 open Wz Wz.Url
 
+/-- `urllib.parse.quote` produces pure ASCII for every input string and every safe set. -/
+theorem quote_ascii (safe s : Str) : ∀ c ∈ quote safe s, c.toNat < 128 :=
+  quoteBytes_ascii safe _
+
+example : quote "/".toList "é /~".toList = "%C3%A9%20/~".toList := by decide
+
+/-- `quote` is idempotent whenever `%` is in the safe set: already quoted text is left alone. -/
+theorem quote_idempotent (safe s : Str) (h : safe.contains '%' = true) :
+    quote safe (quote safe s) = quote safe s :=
+  quote_idem h s
+
+example : ("%!$&'()*+,/:;=@".toList).contains '%' = true := by decide
+
+/-- Without `%` in the safe set the statement is false (so the hypothesis is needed): -/
+theorem quote_not_idempotent_without_percent :
+    quote "/".toList (quote "/".toList " ".toList) ≠ quote "/".toList " ".toList := by decide
+
 /-- Every safe set `iri_to_uri` passes to `quote` (collected from the AST on every run) contains
-`%`: already quoted text is left alone (the premise of idempotence). -/
+`%` - the obligation a changed `safe=` literal breaks. -/
 theorem iri_safe_sets_keep_percent : ∀ p ∈ Gen.UrlTables.iriSafeSets, p.2.contains '%' = true := by decide
+
+/-- ... and none of them lets through a character that would end or change its component:
+no `?`/`#` in the path set, no `#` in the query set, no `/?#@:` in the userinfo sets beyond what
+the component allows (`:` is excluded from username and password). -/
+theorem iri_safe_sets_respect_delimiters :
+    (∀ c ∈ ['?', '#'], Gen.UrlTables.iriPathSafe.contains c = false) ∧
+    Gen.UrlTables.iriQuerySafe.contains '#' = false ∧
+    (∀ c ∈ ['/', '?', '#', '@', ':'], Gen.UrlTables.iriUserSafe.contains c = false ∧
+      Gen.UrlTables.iriPasswordSafe.contains c = false) := by decide
+
+/-- `iri_to_uri` yields pure ASCII: every quoted component for every input, and the whole 5-tuple
+handed to `urlunsplit` when the scheme and the (IDNA-encoded, opaque) host are ASCII. -/
+theorem iriToUri_ascii (p : Parts) (hs : ∀ c ∈ p.scheme, c.toNat < 128) (hh : ∀ c ∈ p.host, c.toNat < 128) :
+    let u := iriToUri p
+    (∀ c ∈ u.scheme, c.toNat < 128) ∧ (∀ c ∈ u.netloc, c.toNat < 128) ∧ (∀ c ∈ u.path, c.toNat < 128) ∧
+    (∀ c ∈ u.query, c.toNat < 128) ∧ (∀ c ∈ u.fragment, c.toNat < 128) := by
+  refine ⟨hs, ?_, quote_ascii _ _, quote_ascii _ _, quote_ascii _ _⟩
+  have hdig : ∀ k : Nat, ∀ c ∈ (toString k).toList, c.toNat < 128 := by
+    intro k c hc
+    rw [Nat.toString_eq_repr, Nat.toList_repr] at hc
+    have := Char.isDigit_iff_toNat.mp (Nat.isDigit_of_mem_toDigits (by decide) (by decide) hc)
+    have h9 : '9'.toNat = 57 := by decide
+    omega
+  intro c hc
+  simp only [iriToUri, netloc] at hc
+  have hhost : ∀ c ∈ (if p.host.contains ':' = true then '[' :: p.host ++ [']'] else p.host), c.toNat < 128 := by
+    intro c hc
+    split at hc
+    · simp only [List.cons_append, List.mem_cons, List.mem_append, List.mem_nil_iff, or_false] at hc
+      rcases hc with rfl | hc | rfl
+      · decide
+      · exact hh c hc
+      · decide
+    · exact hh c hc
+  have hport : ∀ c ∈ (match p.port with
+      | some 0 => (if p.host.contains ':' = true then '[' :: p.host ++ [']'] else p.host)
+      | some k => (if p.host.contains ':' = true then '[' :: p.host ++ [']'] else p.host) ++ ':' :: (toString k).toList
+      | none => (if p.host.contains ':' = true then '[' :: p.host ++ [']'] else p.host)), c.toNat < 128 := by
+    intro c hc
+    split at hc
+    · exact hhost c hc
+    · rcases List.mem_append.mp hc with hc | hc
+      · exact hhost c hc
+      · rcases List.mem_cons.mp hc with rfl | hc
+        · decide
+        · exact hdig _ c hc
+    · exact hhost c hc
+  split at hc
+  · rcases List.mem_append.mp hc with hc | hc
+    · split at hc
+      · rcases List.mem_append.mp hc with hc | hc
+        · exact quote_ascii _ _ c hc
+        · rcases List.mem_cons.mp hc with rfl | hc
+          · decide
+          · exact quote_ascii _ _ c hc
+      · exact quote_ascii _ _ c hc
+    · rcases List.mem_cons.mp hc with rfl | hc
+      · decide
+      · exact hport c hc
+  · exact hport c hc
+
+example :
+    iriToUri
+      { scheme := "http".toList
+        username := some "ü".toList
+        host := "xn--n3h.net".toList
+        port := some 8080
+        path := "/på th".toList
+        query := "q=è%DF".toList } =
+      { scheme := "http".toList
+        netloc := "%C3%BC@xn--n3h.net:8080".toList
+        path := "/p%C3%A5%20th".toList
+        query := "q=%C3%A8%DF".toList
+        fragment := [] } := by decide
+
+/-- `iri_to_uri` is idempotent component-wise: re-quoting any component it produced (path, query,
+fragment, username, password) with the same safe set changes nothing. -/
+theorem iriToUri_idempotent (s : Str) :
+    ∀ p ∈ Gen.UrlTables.iriSafeSets, quote p.2 (quote p.2 s) = quote p.2 s :=
+  fun p hp => quote_idempotent p.2 s (iri_safe_sets_keep_percent p hp)
+
+/-- in particular for the three components that travel unchanged through `urlunsplit`/`urlsplit` -/
+theorem iriToUri_idempotent_parts (p : Parts) :
+    let u := iriToUri p
+    (iriToUri { p with path := u.path, query := u.query, fragment := u.fragment }).path = u.path ∧
+    (iriToUri { p with path := u.path, query := u.query, fragment := u.fragment }).query = u.query ∧
+    (iriToUri { p with path := u.path, query := u.query, fragment := u.fragment }).fragment = u.fragment := by
+  refine ⟨?_, ?_, ?_⟩
+  · exact quote_idempotent _ _ (by decide)
+  · exact quote_idempotent _ _ (by decide)
+  · exact quote_idempotent _ _ (by decide)
+
+/-- `%` (0x25) and every C0 control, SP and DEL stay quoted in every component of `uri_to_iri`, and
+each component keeps its own delimiters quoted (tables evaluated from the live compiled patterns):
+path `/?#`, query `&=+#`, userinfo `:@/?#`. -/
+theorem keep_tables_cover_reserved :
+    (∀ n ∈ Gen.UrlTables.alwaysUnsafe, tbl Gen.UrlTables.keepPath n = true ∧
+      tbl Gen.UrlTables.keepQuery n = true ∧ tbl Gen.UrlTables.keepFragment n = true ∧
+      tbl Gen.UrlTables.keepUser n = true) ∧
+    (∀ n, n ≤ 0x20 ∨ n = 0x25 ∨ n = 0x7f → n ∈ Gen.UrlTables.alwaysUnsafe) ∧
+    (∀ c ∈ ['/', '?', '#'], tbl Gen.UrlTables.keepPath c.toNat = true) ∧
+    (∀ c ∈ ['&', '=', '+', '#'], tbl Gen.UrlTables.keepQuery c.toNat = true) ∧
+    (∀ c ∈ [':', '@', '/', '?', '#'], tbl Gen.UrlTables.keepUser c.toNat = true) := by
+  refine ⟨by decide, ?_, by decide, by decide, by decide⟩
+  intro n hn
+  have : n < 128 := by omega
+  revert hn
+  revert n
+  decide
+
+/-- a kept escape is copied verbatim by `_unquote_partial` (here: a quoted slash in a path) -/
+example : unquotePartial Gen.UrlTables.keepPath "a%2Fb%C3%A9%FF%41".toList = "a%2Fbé%FFA".toList := by decide
+
+/-- The latin-1 "dance" is lossless for every string of Unicode scalar values:
+`_wsgi_decoding_dance(_wsgi_encoding_dance(s)) == s`. -/
+theorem dance_roundtrip (s : Str) : decodingDance (encodingDance s) = some s :=
+  dance_roundtrip' s
+
+/-- `DispatcherMiddleware` preserves the concatenation: what it appends to SCRIPT_NAME followed by
+the new PATH_INFO is the original PATH_INFO, for every mount table and every path. -/
+theorem dispatcher_preserves_concat (mounts : List Str) (p : Str) :
+    (dispatch mounts p).script ++ (dispatch mounts p).pathInfo = p :=
+  (dispatch_spec mounts p).concat
+
+/-- The selected mount is the longest mount key that is a `/`-boundary prefix of PATH_INFO
+(`BP k p`: `p == k or p.startswith(k + "/")`), the script name is exactly that key; the default app
+is used only when no key is such a prefix. -/
+theorem dispatcher_longest_mount (mounts : List Str) (p : Str) :
+    (∀ k, (dispatch mounts p).mount = some k →
+      k ∈ mounts ∧ (dispatch mounts p).script = k ∧ BP k p ∧
+      ∀ k' ∈ mounts, BP k' p → k'.length ≤ k.length) ∧
+    ((dispatch mounts p).mount = none → ∀ k' ∈ mounts, ¬ BP k' p) :=
+  ⟨(dispatch_spec mounts p).chosen, (dispatch_spec mounts p).default⟩
+
+example : dispatch ["/api".toList, "/api/v1".toList] "/api/v1/users".toList =
+    ⟨"/api/v1".toList, "/users".toList, some "/api/v1".toList⟩ := by decide
+example : dispatch ["/api".toList] "/apix/y".toList = ⟨[], "/apix/y".toList, none⟩ := by decide
+example : BP "/api".toList "/api/v1".toList := ⟨"/v1".toList, by decide, Or.inr (by decide)⟩
 
 end Wz.Props.C15
